@@ -38,8 +38,11 @@ Definition cmp_row (f : (Qc -> Qc -> bool) -> row -> row) (w : nat) (rw : row * 
 Record pcase := { pc_t : qtable; pc_w : nat; pc_rows : list (row * list (option Z)) }.
 (* rows whose evidence has probability zero are outside the positivity clause and every branch
    comparison on them can be an exact 0 = 0 tie (the code then prefers a floored -1e31 to -inf): 32 *)
+(* 2: the implementation's completed row has probability zero although the evidence has not
+   (positivity clause, checked on the implementation's own output, numerical ties included) *)
 Definition run_pcase (c : pcase) : list Z :=
   map (fun rw => if Qc_eq_bool (qroot (pc_t c) (fst rw)) 0%Qc then 32%Z
+                 else if Qc_eq_bool (qroot (pc_t c) (mkrow (snd rw))) 0%Qc then 2%Z
                  else cmp_row (fun s => qmpe s (pc_t c)) (pc_w c) rw) (pc_rows c).
 
 Record tcase := { tc_c : clt Qc; tc_w : nat; tc_rows : list (row * list (option Z)) }.
